@@ -9,7 +9,7 @@
 use generic_array::sequence::{Concat, GenericSequence, Lengthen, Remove, Shorten, Split};
 use generic_array::{ArrayLength, GenericArray};
 use vkit::typenum::U;
-use vkit::{Args, Elem, HeapTok, Stats, Tok, Tok24, ZTok};
+use vkit::{Args, Elem, Fat, FatTok, HeapTok, Stats, Tok, Tok24, ZTok};
 
 include!("../tables.rs");
 
@@ -296,7 +296,7 @@ fn main() {
     let args = Args::parse();
     let mut st = Stats::new("seqops", &args);
     if args.part_on("small") {
-        small_for!(&mut st, args, Tok, Tok24, ZTok, HeapTok, u8, u32, [u64; 3], (), String);
+        small_for!(&mut st, args, Tok, Tok24, ZTok, HeapTok, u8, u32, [u64; 3], (), String, [u8; 3], Fat, FatTok);
     }
     if args.part_on("big") && (args.thorough() || args.kv.contains_key("big")) {
         big_for!(&mut st, args, Tok, ZTok, u8, [u64; 3]);
